@@ -43,13 +43,14 @@ CONFIG = {
     "coq_dirs": ["theories/Upload"],
     "coq_targets": ["theories/Upload/Properties.vo", "theories/Upload/Corr.vo", "theories/Upload/Order.vo"],
     "properties_files": ["theories/Upload/Properties.v"],
-    "required_theorems": ["ack_stored_or_reported", "ac_only_complete", "failure_pruned", "buffers_consumed_once", "trace_ok"],
+    "required_theorems": ["ack_stored_or_reported", "ac_only_complete", "failure_pruned", "buffers_consumed_once", "trace_ok",
+                          "unissued_put_reported", "flush_error_source", "lost_ack_not_cached"],
     "static_obligations": [order_obligations],
     "harnesses": [
         {"cmd": "upload", "cases_quick": 400, "cases_thorough": 16000, "shards_quick": 8, "shards_thorough": 32, "race": True},
     ],
     "trusted_base": [
-        "hand-written model coq/theories/Upload/Model.v of batched_store_blob_access.go and the flushing / caching executors (storage call results, and which Puts are still issued after a failed one, are oracles), tied by correspondence harness/cmd/upload",
+        "hand-written model coq/theories/Upload/Model.v of batched_store_blob_access.go and the flushing / caching executors (storage call results, which Puts of a batch are issued at all -- after a failed one or on a cancelled context --, and which of several concurrent errors the errgroup reports, are oracles), tied by correspondence harness/cmd/upload",
         "extractor harness/cmd/uploadorder (go/ast) for the decorator order and storage wiring of cmd/bb_worker/main.go",
         "Go harness: fake CAS/AC (truthful FindMissing, Put consumes its buffer), fake innermost executor that attaches upload errors like local_build_executor does, Gallina printer, evaluator Upload/Corr.v",
     ],
@@ -62,5 +63,6 @@ CONFIG = {
     "assumptions": [
         "the innermost executor uploads every blob its result references through the batching layer and attaches upload errors to the response (this is what the fake does; local_build_executor.go / output_hierarchy.go are C10's subject)",
         "FindMissing of the CAS is truthful and a successful Put stores the blob",
+        "cancellation of the caller's context is exercised at scripted points (before the action, between uploads, while a FindMissing / CAS Put is in progress, before the flush, before the final write); the fake storage returns CANCELLED for calls entered with a done context (gRPC client behaviour); a context deadline is not exercised (the model admits DEADLINE_EXCEEDED as well)",
     ],
 }
